@@ -822,5 +822,66 @@ func runC15(c *Ctx) error {
 			}
 		}
 	}
+
+	// ---- (g) a deep queue: a stalled first task while one producer keeps submitting (a slow peer and a busy
+	// application): every task runs once, in order, however many are pending (more than 2^16, the next integer width
+	// below the queue's 32-bit element handles)
+	{
+		deep := 70000
+		if !c.quick() {
+			deep = 300000
+		}
+		tag := fmt.Sprintf("deep queue of %d pending tasks", deep)
+		ds, err := c15NewSys()
+		if err != nil {
+			return err
+		}
+		gate := make(chan struct{})
+		order := make([]int32, 0, deep)
+		var omu sync.Mutex
+		fin := make(chan struct{})
+		perr := ""
+		func() {
+			defer func() {
+				if r := recover(); r != nil {
+					perr = fmt.Sprint(r)
+				}
+			}()
+			ds.conn.Async(func() { <-gate })
+			for i := 0; i < deep; i++ {
+				i := int32(i)
+				ds.conn.Async(func() {
+					omu.Lock()
+					order = append(order, i)
+					omu.Unlock()
+				})
+			}
+			ds.conn.Async(func() { close(fin) })
+		}()
+		close(gate)
+		if perr != "" {
+			c.oracleFail(fmt.Sprintf("%s: submitting panicked: %s", tag, perr), "async-deep-queue", map[string]any{"tag": tag})
+		} else {
+			select {
+			case <-fin:
+			case <-time.After(60 * time.Second):
+				c.oracleFail(tag+": the last task did not run within 60 s", "async-deep-queue", map[string]any{"tag": tag})
+			}
+			omu.Lock()
+			bad := -1
+			for i := range order {
+				if int(order[i]) != i {
+					bad = i
+					break
+				}
+			}
+			n := len(order)
+			omu.Unlock()
+			if n != deep || bad >= 0 {
+				c.oracleFail(fmt.Sprintf("%s: %d tasks ran, first out-of-order position %d", tag, n, bad), "async-deep-queue", map[string]any{"tag": tag, "ran": n, "first_bad": bad})
+			}
+		}
+		c.count(tag, true, "kind=deep-queue")
+	}
 	return nil
 }
